@@ -129,6 +129,15 @@ def complexSuffix : List Nat := [95, 99, 111, 109, 112, 108, 101, 120]
 /-- `complex` -/
 def complexWord : List Nat := [99, 111, 109, 112, 108, 101, 120]
 
+/-- A default value, of a schema argument (`torch._C.Argument.default_value`) or of a python parameter
+(`inspect.Parameter.default`): `absent` = no default; `none` = `None`; numbers as reduced fractions (python's
+`1 == 1.0`); strings as code points; `nums` = a list / tuple of numbers; `opaque` = anything else (dtype, layout,
+memory format, device, enum members, infinities …), never compared. -/
+inductive DVal
+  | absent | none | bool (b : Bool) | num (n : Int) (d : Nat) | str (cs : List Nat)
+  | nums (xs : List (Int × Nat)) | opaque
+  deriving DecidableEq, Repr
+
 structure Entry where
   /-- the qualified name as its code points (the kernel evaluates `String.toList` and `Char` tests on
   literals slowly, `Nat` arithmetic and `String.ofList` quickly) -/
@@ -140,6 +149,10 @@ structure Entry where
   sig : OsSig
   /-- code points of the python function's `__name__` -/
   fcodes : List Nat
+  /-- default values of the schema arguments, parallel to `aten.positional ++ aten.kwonly` -/
+  adef : List DVal
+  /-- default values of the python parameters, parallel to `sig` -/
+  pdef : List DVal
   deriving Repr
 
 /-! ## `op_signature_from_function`: annotation → input or attribute -/
@@ -389,6 +402,63 @@ def bindsOkK (m : Mode) (a : AtenSchema) (s : OsSig) : Bool :=
   bindsOk m a s && posNamed a s && requiredOwn a s &&
   nodupS (s.map (·.name)) && nodupS ((a.positional ++ a.kwonly).map (·.name))
 
+/-! ## Defaults of omitted arguments
+
+A conforming call may omit every schema argument that has a default; ATen then computes with the schema's
+default, the torch_lib function with its python parameter's default (`_construct_named_inputs_and_attrs` fills
+`param.default` for attributes and `None` for inputs, CPython the function's `__defaults__`).  The two must
+not be two *different concrete values*.  `None` on either side, and values of the opaque kinds, are not
+judged: there the function body decides (`dtype=-1`, `dim=None` …). -/
+
+def DVal.isAbsent : DVal → Bool
+  | .absent => true
+  | _ => false
+
+/-- concrete values that can be compared -/
+def DVal.judged : DVal → Bool
+  | .bool _ | .num _ _ | .str _ | .nums _ => true
+  | _ => false
+
+/-- python's `True == 1`, `False == 0` -/
+def DVal.norm : DVal → DVal
+  | .bool true => .num 1 1
+  | .bool false => .num 0 1
+  | d => d
+
+def dvAgree (x y : DVal) : Bool := !(x.judged && y.judged) || decide (x.norm = y.norm)
+
+/-- schema argument number `i` (positional arguments first, then keyword-only ones) against parameter `j` -/
+def pairAgree (adef pdef : List DVal) (i j : Nat) : Bool :=
+  match adef[i]?, pdef[j]? with
+  | some u, some v => dvAgree u v
+  | _, _ => true
+
+/-- Positional argument `i` is paired with the parameter at position `i`, a keyword-only argument with every
+parameter of its name (exactly where `bind` puts them when they are supplied). -/
+def defaultsOk (a : AtenSchema) (s : OsSig) (adef pdef : List DVal) : Bool :=
+  (List.range a.positional.length).all (fun i => pairAgree adef pdef i i) &&
+  a.kwonly.zipIdx.all (fun xk => s.zipIdx.all (fun pj =>
+    pj.1.name != xk.1.name || pairAgree adef pdef (a.positional.length + xk.2) pj.2))
+
+/-- The pairs (schema argument number, parameter number) whose concrete defaults differ. -/
+def defaultsBad (a : AtenSchema) (s : OsSig) (adef pdef : List DVal) : List (Nat × Nat) :=
+  ((List.range a.positional.length).filter (fun i => !pairAgree adef pdef i i)).map (fun i => (i, i)) ++
+  a.kwonly.zipIdx.flatMap (fun xk => (s.zipIdx.filter (fun pj =>
+    pj.1.name == xk.1.name && !pairAgree adef pdef (a.positional.length + xk.2) pj.2)).map
+      (fun pj => (a.positional.length + xk.2, pj.2)))
+
+/-- What an unbound parameter really computes with: `_construct_named_inputs_and_attrs` fills an unbound *input* with
+`None` whatever the python default says (`named_inputs[param.name] = None`) and an attribute with `param.default`;
+a CPython call uses the python default. -/
+def effDefaults (m : Mode) (s : OsSig) (pdef : List DVal) : List DVal :=
+  (s.zip pdef).map (fun pd => if m.dropsUnknown && pd.1.isInput && !pd.2.isAbsent then .none else pd.2)
+
+/-- The default lists have the rows' lengths and say "absent" exactly where the flags say "no default". -/
+def defaultsShapeOk (a : AtenSchema) (s : OsSig) (adef pdef : List DVal) : Bool :=
+  (adef.length == a.positional.length + a.kwonly.length) && (pdef.length == s.length) &&
+  ((a.positional ++ a.kwonly).zip adef).all (fun xd => xd.1.hasDefault == !xd.2.isAbsent) &&
+  (s.zip pdef).all (fun pd => pd.1.pyDefault == !pd.2.isAbsent)
+
 /-! ## Names -/
 
 /-- `[a-zA-Z0-9_]` on a code point (names are handled as code-point lists: kernel arithmetic on `Nat`
@@ -581,6 +651,12 @@ def Entry.defects (e : Entry) : List Defect :=
    | _ => (failing e.mode e.aten e.sig).map .clause)
 
 def Entry.ok (e : Entry) : Bool := e.defects.isEmpty
+
+/-- The row's defaults are recorded consistently and no paired concrete defaults differ (skipped for names
+PyTorch does not define: no schema). -/
+def Entry.defaultsOk (e : Entry) : Bool :=
+  defaultsShapeOk e.aten e.sig e.adef e.pdef &&
+  OV.C16.defaultsOk e.aten e.sig e.adef (effDefaults e.mode e.sig e.pdef)
 
 /-- The row has the shape the two binders are modelled for. -/
 def Entry.shapeOk (e : Entry) : Bool :=
